@@ -28,6 +28,8 @@ DECIDED_R7 = ('Round 7: decode(<computed codec>) raises LookupError; generator e
 DECIDED = DECIDED + ' ' + DECIDED_R7
 DECIDED_R8 = ('Round 8: an empty CONTENT_LENGTH does not reach int(); merged-configuration clause shared with C05.e.')
 DECIDED = DECIDED + ' ' + DECIDED_R8
+DECIDED_R9 = ('Round 9: the size-line cap may count through the length of a list that receives every byte read (d).')
+DECIDED = DECIDED + ' ' + DECIDED_R9
 NOT_DECIDED = ('regex matching time; completeness of the may-raise catalogue (a stated assumption: ' +
                '; '.join(f'{a} -> {b}' for a, b in CATALOGUE_DOC) + '); a non-numeric CONTENT_LENGTH (server-validated '
                'framing metadata, not body bytes).')
